@@ -3,6 +3,7 @@ package main
 import (
 	"fmt"
 	"go/types"
+	"sort"
 	"strings"
 
 	"golang.org/x/tools/go/ssa"
@@ -227,4 +228,128 @@ func searchForwardAll(from *ssa.Call, obj string, dirty *bool) (bool, bool) {
 	}
 	scan(start, idx)
 	return false, false
+}
+
+// HASH-FRESH: on a hasher that outlives the function (option / field / parameter), every Sum covers only what
+// was written since a Reset: either a Reset follows the Sum on every path to the exit (reset-after discipline)
+// or a Reset precedes the first Write on every path from the entry (reset-before discipline).
+func RunHashFresh(p *Prog, r *Report, scope func(pkg string) bool) {
+	for _, fn := range p.Funcs {
+		pk := FuncPkg(fn)
+		if pk == nil || !scope(pk.Path()) {
+			continue
+		}
+		ord := map[string]int{}
+		for _, b := range fn.Blocks {
+			for _, ins := range b.Instrs {
+				op := hashOpOf(ins)
+				if op == nil || op.kind != "Sum" {
+					continue
+				}
+				if !hashOutlives(op) {
+					continue
+				}
+				// only sums that can see written data
+				ord[op.obj]++
+				key := fmt.Sprintf("sum:%s#%d", normIdx(op.obj), ord[op.obj])
+				dirty := false
+				searchForwardAll(op.call, op.obj, &dirty)
+				resetAfter := !dirty
+				resetBefore := resetDominates(op)
+				pos := p.Pos(ins.Pos())
+				if resetAfter || resetBefore {
+					why := "a Reset follows the Sum on every path to the exit"
+					if !resetAfter {
+						why = "a Reset precedes the Sum on every path from the entry"
+					}
+					r.Pass("HASH-FRESH", pk.Path(), FuncName(fn), key, pos, why, true)
+				} else {
+					r.Fail("HASH-FRESH", pk.Path(), FuncName(fn), key, pos, "the digest of a long-lived hasher is taken without a Reset before or after: data of earlier uses (an earlier commitment, an earlier call) leaks into this and later digests")
+				}
+			}
+		}
+	}
+}
+
+// hashOutlives: the hasher object is not created by this function (it is a field, option, parameter or captured variable).
+func hashOutlives(op *hashOp) bool {
+	o := op.obj
+	return strings.HasPrefix(o, "$") || strings.HasPrefix(o, "cp$") || strings.Contains(o, "Config)") || strings.Contains(o, "freevar") || strings.HasPrefix(o, "global:")
+}
+
+// resetDominates: a Reset of the same object precedes the Sum on every path from the entry.
+func resetDominates(op *hashOp) bool {
+	blk := op.call.Block()
+	// same block, earlier instruction
+	for _, ins := range blk.Instrs {
+		if ins == ssa.Instruction(op.call) {
+			break
+		}
+		if o := hashOpOf(ins); o != nil && o.obj == op.obj && o.kind == "Reset" {
+			return true
+		}
+	}
+	for d := blk.Idom(); d != nil; d = d.Idom() {
+		for _, ins := range d.Instrs {
+			if o := hashOpOf(ins); o != nil && o.obj == op.obj && o.kind == "Reset" {
+				return true
+			}
+		}
+	}
+	return false
+}
+
+// HTF-AGREE: prover and verifier reduce the hash-to-field digest of a commitment in the same way: the descriptors
+// of the byte strings handed to (*fr.Element).SetBytes after a HashToFieldFn.Sum are equal in Prove and Verify.
+func RunHtfAgree(p *Prog, r *Report) {
+	cfgRe := strings.NewReplacer("local(ProverConfig)", "cfg", "local(VerifierConfig)", "cfg", "$0.htfFunc", "cfg.HashToFieldFn", "cp$0.htfFunc", "cfg.HashToFieldFn")
+	collect := func(fn *ssa.Function) []string {
+		var out []string
+		for _, f := range funcsWithClosures(fn) {
+			for _, b := range f.Blocks {
+				for _, ins := range b.Instrs {
+					c, ok := ins.(*ssa.Call)
+					if !ok || !strings.HasSuffix(CalleeName(&c.Call), "fr.(*Element).SetBytes") || len(c.Call.Args) < 2 {
+						continue
+					}
+					d := Desc(c.Call.Args[1])
+					if !strings.Contains(d, ".Sum(") {
+						continue
+					}
+					d = cfgRe.Replace(normIdx(d))
+					// keep the slicing shape and the hasher only
+					out = append(out, d)
+				}
+			}
+		}
+		sort.Strings(out)
+		return uniq(out)
+	}
+	for _, scheme := range []struct{ name, prover, verifier string }{
+		{"groth16", "github.com/consensys/gnark/backend/groth16/<curve>.Prove", "github.com/consensys/gnark/backend/groth16/<curve>.Verify"},
+		{"plonk", "github.com/consensys/gnark/backend/plonk/<curve>.(*instance).bsb22Hint", "github.com/consensys/gnark/backend/plonk/<curve>.Verify"},
+	} {
+		provers := map[string]*ssa.Function{}
+		for _, fn := range p.FuncsMatching(scheme.prover) {
+			provers[FuncPkg(fn).Path()] = fn
+		}
+		vs := p.FuncsMatching(scheme.verifier)
+		if len(vs) < 7 || len(provers) < 7 {
+			r.Fail("UNRESOLVED", "-", scheme.name, "htf-agree", "-", fmt.Sprintf("%d provers / %d verifiers found, confirmed 7", len(provers), len(vs)))
+		}
+		for _, vf := range vs {
+			pkg := FuncPkg(vf).Path()
+			pf := provers[pkg]
+			if pf == nil {
+				continue
+			}
+			a, b := collect(pf), collect(vf)
+			key := "hash-to-field-reduction"
+			if len(a) > 0 && strings.Join(a, "|") == strings.Join(b, "|") {
+				r.Pass("HTF-AGREE", pkg, FuncName(vf), key, p.Pos(FuncPos(vf)), "prover and verifier hand the same byte string shape to SetBytes: "+strings.Join(a, " "), true)
+			} else {
+				r.Fail("HTF-AGREE", pkg, FuncName(vf), key, p.Pos(FuncPos(vf)), fmt.Sprintf("prover and verifier reduce the commitment hash differently: prover %v, verifier %v — a hash-to-field function with a digest wider than a field element makes valid proofs fail", a, b))
+			}
+		}
+	}
 }
